@@ -218,18 +218,25 @@ structure Defects where
   /-- #33 the user-admin entries of a group that is new to a known room are not checked at all
       (room_node.rs:909-926) -/
   newGroupUserAdminUnchecked : Bool
+  /-- #4 `RoomNode::read` replayed the history lists newest first (`sort_by(|a, b| b.cdate.cmp(&a.cdate))`):
+      a stored room with two entries for one key could not be parsed back (room_node.rs:129,315,328,341) -/
+  newestFirstRead : Bool
 deriving Repr, DecidableEq
 
 /-- /repo as it is now. Fixed since the first run of this check (regression witnesses are kept about
-    `Defects.beforeFixes`): `roomRowUnchecked`, `newGroupUserAdminUnchecked` (/repo 77018f3). -/
+    `Defects.beforeFixes`): `roomRowUnchecked`, `newGroupUserAdminUnchecked` (/repo 77018f3),
+    `newestFirstRead` (/repo f7a29ff). -/
 def Defects.asImplemented : Defects :=
-  { placingEdgeUnchecked := true, roomRowUnchecked := false, newGroupUserAdminUnchecked := false }
+  { placingEdgeUnchecked := true, roomRowUnchecked := false, newGroupUserAdminUnchecked := false,
+    newestFirstRead := false }
 
 /-- /repo before any of the fixes that this check led to -/
 def Defects.beforeFixes : Defects :=
-  { placingEdgeUnchecked := true, roomRowUnchecked := true, newGroupUserAdminUnchecked := true }
+  { placingEdgeUnchecked := true, roomRowUnchecked := true, newGroupUserAdminUnchecked := true,
+    newestFirstRead := true }
 def Defects.none : Defects :=
-  { placingEdgeUnchecked := false, roomRowUnchecked := false, newGroupUserAdminUnchecked := false }
+  { placingEdgeUnchecked := false, roomRowUnchecked := false, newGroupUserAdminUnchecked := false,
+    newestFirstRead := false }
 
 /-- `Edge::eq`: every field but the signature -/
 def edgeEq (a b : PEdge) : Bool :=
@@ -470,28 +477,33 @@ def edgesFrom (edges : List PEdge) (src label : Nat) : List PEdge :=
 /-- `sort_by(|a, b| b.cdate.cmp(&a.cdate))` -/
 def sortDesc (l : List PEdge) : List PEdge := sortAsc (fun e => -e.cdate) l
 
+/-- the order in which `read` replays a history list: by reference date, oldest first (newest first
+    before /repo f7a29ff); ties keep the primary-key order -/
+def sortRead (newestFirst : Bool) (l : List PEdge) : List PEdge :=
+  if newestFirst then sortDesc l else sortAsc (·.cdate) l
+
 /-- `AuthorisationNode::read` -/
-def readAuth (s : RStore) (id : Nat) : Option AuthNode :=
+def readAuth (nf : Bool) (s : RStore) (id : Nat) : Option AuthNode :=
   match findRow s.nodes id 101 with
   | none => none
   | some node =>
-    let re := sortDesc (edgesFrom s.edges id 33)
-    let ue := sortDesc (edgesFrom s.edges id 34)
-    let ae := sortDesc (edgesFrom s.edges id 35)
+    let re := sortRead nf (edgesFrom s.edges id 33)
+    let ue := sortRead nf (edgesFrom s.edges id 34)
+    let ae := sortRead nf (edgesFrom s.edges id 35)
     some { node, rightEdges := re, rightNodes := re.filterMap fun e => findRow s.nodes e.dst 103,
            userEdges := ue, userNodes := ue.filterMap fun e => findRow s.nodes e.dst 102,
            userAdminEdges := ae, userAdminNodes := ae.filterMap fun e => findRow s.nodes e.dst 102,
            needUpdate := true }
 
 /-- `RoomNode::read` -/
-def readBack (s : RStore) (id : Nat) : Option RoomNode :=
+def readBack (nf : Bool) (s : RStore) (id : Nat) : Option RoomNode :=
   match findRow s.nodes id 100 with
   | none => none
   | some node =>
-    let ae := sortDesc (edgesFrom s.edges id 32)
+    let ae := sortRead nf (edgesFrom s.edges id 32)
     let ge := edgesFrom s.edges id 33
     some { node, adminEdges := ae, adminNodes := ae.filterMap fun e => findRow s.nodes e.dst 102,
-           authEdges := ge, authNodes := ge.filterMap fun e => readAuth s e.dst }
+           authEdges := ge, authNodes := ge.filterMap fun e => readAuth nf s e.dst }
 
 /-- `Node::write`: over the slot it was read from when it has one, appended otherwise -/
 def replaceFirst (nodes : List SRow) (target : SRow) (n : SRow) : List SRow :=
@@ -551,7 +563,7 @@ def accept (d : Defects) (s : RStore) (cand : RoomNode) : Verdict :=
   else
     match s.rooms.find? (·.id = cand.node.id) with
     | some room =>
-      match readBack s cand.node.id with
+      match readBack d.newestFirstRead s cand.node.id with
       | none => .err .noHistory
       | some old =>
         match prepareWithHistory d room old cand with
